@@ -23,3 +23,29 @@ func debugAlphabet() {
 	}
 	n.close()
 }
+
+// debugPublisher replays a fixed publisher history with the oracles on (developer aid).
+func debugPublisher() {
+	w := worldsFor("publisher")[0]
+	n := freshNode(w)
+	for _, o := range seedOps(w) {
+		fmt.Println("seed", o, n.apply(o, false, nil))
+	}
+	for _, o := range []op{{"inject-user", "pay-A-B"}, {"publish", "1h"}, {"publish", "1s"}, {"publish", "1h"}} {
+		fmt.Println("scenario", o, n.apply(o, true, func(props, sig, f string, a ...interface{}) { fmt.Println("   FAIL", props, sig, fmt.Sprintf(f, a...)) }))
+		if n.M == nil {
+			break
+		}
+		for h, e := range n.M.Pool {
+			fmt.Println("   model pool", hx(h), e.Valid)
+		}
+		for _, c := range n.M.Candidates() {
+			var outH uint64
+			for _, o := range c.Txn.Out {
+				outH += o.Hours
+			}
+			fmt.Println("   candidate", hx(c.Hash), c.Elig, c.Class, "fee", n.M.Fee(&c.Txn), "outHours", outH, "head", n.M.Head().Head.Time)
+		}
+	}
+	n.close()
+}
